@@ -62,7 +62,7 @@ class C06(Prop):
             "that had been modified before, followed by an append; distinct by program hash")
     ASSUMPTIONS = ["not generated (unspecified by the property): InsertItemInArray beyond the end, key-less items inside objects, "
                    "editing through reference nodes, moves that would make reference views cyclic"]
-    REQUIRED_CLASSES = ["nontrivial_program", "self_insert", "reference", "const_key", "case_variant_lookup", "bulk", "big_container"]
+    REQUIRED_CLASSES = ["nontrivial_program", "self_insert", "reference", "const_key", "case_variant_lookup", "bulk", "big_container", "long_key"]
 
     def budget(self, tier):
         return {"workers": 14, "examples": 1200 if tier == "quick" else 12000}
